@@ -27,6 +27,7 @@ func init() {
 	hx.Register(&hx.Stream{Name: "c15", Gen: genC15, Run: runC15, Shrink: shrinkC15, Describe: describeC15})
 	hx.Register(&hx.Stream{Name: "m64", Gen: genM64, Run: runM64})
 	hx.Register(&hx.Stream{Name: "c15big", Gen: genC15Big, Run: runC15Big, Shrink: shrinkC15Big, Describe: describeC15Big})
+	hx.Register(&hx.Stream{Name: "c15multi", Gen: genC15Multi, Run: runC15Multi, Shrink: shrinkC15Multi, Describe: describeC15Multi})
 }
 
 func c15Probe(out *hx.Nums, t *transp.Table, h uint64, ply Depth) {
@@ -553,5 +554,293 @@ func genC15Big(rng *hx.Rng, n int, tier string, emit func(hx.Input)) {
 		emit(hx.Input{In: fmt.Sprintf("%x ", procs) + in,
 			Desc: fmt.Sprintf("GOMAXPROCS=%d buckets=%d then %d: ", procs, nbA, nbB) + desc,
 			Tags: tags, NonTrivial: true})
+	}
+}
+
+// ---------------------------------------------------------------------------------------------
+// c15multi: several tables alive at once, and probe results whose accessors are read late.
+//
+//	input : ntab npool pool... nops (kind tab hash gen depth ply move value type)*
+//	        kinds 0..4 as in c15 on the table in slot tab; 5 New(hash bytes) into slot tab (+ sweep);
+//	        6 LookUp whose result is HELD: Depth/Type/Value(ply)/Move are read only at the next op
+//	        that is not a 6 (kind 7 = just that; its gen field odd: last result first);
+//	        an op on an empty slot does nothing.
+//	output: as c15; the held probes in the order of the LookUp calls.
+
+type c15mop struct {
+	tab int
+	c15op
+}
+
+func runC15Multi(a hx.Args) string {
+	ntab := min(max(a.Int(0), 0), 8)
+	np := max(a.Int(1), 0)
+	if 2+np >= a.Len() {
+		return ""
+	}
+	pool := make([]uint64, np)
+	for i := range pool {
+		pool[i] = a.U64(2 + i)
+	}
+	nops := a.Int(2 + np)
+	base := 3 + np
+	tables := make([]*transp.Table, ntab)
+	out := &hx.Nums{}
+	var held []func(o *hx.Nums)
+	flush := func(reverse bool) {
+		res := make([]*hx.Nums, len(held))
+		for i := range held {
+			j := i
+			if reverse {
+				j = len(held) - 1 - i
+			}
+			res[j] = &hx.Nums{}
+			held[j](res[j])
+		}
+		for _, r := range res {
+			for _, tok := range hx.Toks(r.String()) {
+				x, _ := hx.ParseArgs(tok)
+				out.I(x.I64(0))
+			}
+		}
+		held = held[:0]
+	}
+	for j := 0; j < nops && base+9*j+8 < a.Len(); j++ {
+		o := base + 9*j
+		kind := a.I64(o)
+		tab := a.I64(o + 1)
+		ply := Depth(a.I64(o + 5))
+		var t *transp.Table
+		if tab >= 0 && tab < int64(ntab) {
+			t = tables[tab]
+		}
+		if kind == 6 {
+			if t != nil {
+				e, ok := t.LookUp(board.Hash(a.U64(o + 2))) // the pointer is kept, nothing is read yet
+				held = append(held, func(r *hx.Nums) {
+					if !ok {
+						r.U(0, 0, 0, 0, 0)
+						return
+					}
+					r.U(1).I(int64(e.Depth()), int64(e.Type()), int64(e.Value(ply)), int64(e.Move))
+				})
+			}
+			continue
+		}
+		flush(kind == 7 && a.I64(o+3)&1 == 1)
+		snap := func(t *transp.Table) {
+			for _, h := range pool {
+				c15Probe(out, t, h, ply)
+			}
+		}
+		if kind == 5 {
+			if tab >= 0 && tab < int64(ntab) {
+				tables[tab] = transp.New(a.Int(o + 2))
+				snap(tables[tab])
+			}
+			continue
+		}
+		if t == nil {
+			continue
+		}
+		switch kind {
+		case 0:
+			t.Insert(board.Hash(a.U64(o+2)), transp.Gen(a.I64(o+3)), Depth(a.I64(o+4)), ply,
+				move.Move(a.I64(o+6)), Score(a.I64(o+7)), transp.Type(a.I64(o+8)))
+			snap(t)
+		case 1:
+			c15Probe(out, t, a.U64(o+2), ply)
+		case 2:
+			t.Clear()
+			snap(t)
+		case 3:
+			t.Resize(a.Int(o + 2))
+			t.Clear()
+			snap(t)
+		case 4:
+			t.Resize(a.Int(o + 2))
+			snap(t)
+		}
+	}
+	flush(false)
+	return out.String()
+}
+
+func c15MultiEncode(ntab int, pool []uint64, ops []c15mop) (string, string) {
+	in := (&hx.Nums{}).Int(ntab).Int(len(pool)).U(pool...).Int(len(ops))
+	var desc strings.Builder
+	fmt.Fprintf(&desc, "%d table slots, pool=%x ops:", ntab, pool)
+	for _, o := range ops {
+		in.Int(o.kind).Int(o.tab).U(o.hash).I(o.gen, o.d, o.ply, o.m, o.v, o.typ)
+		switch o.kind {
+		case 0:
+			fmt.Fprintf(&desc, " t%d.Insert(%#x,gen=%d,d=%d,ply=%d,m=%d,v=%d,typ=%d)", o.tab, o.hash, o.gen, o.d, o.ply, o.m, o.v, o.typ)
+		case 1:
+			fmt.Fprintf(&desc, " t%d.LookUp(%#x).Value(%d)", o.tab, o.hash, o.ply)
+		case 2:
+			fmt.Fprintf(&desc, " t%d.Clear()", o.tab)
+		case 3:
+			fmt.Fprintf(&desc, " t%d.Resize(%d)+Clear()", o.tab, int64(o.hash))
+		case 4:
+			fmt.Fprintf(&desc, " t%d.Resize(%d)", o.tab, int64(o.hash))
+		case 5:
+			fmt.Fprintf(&desc, " t%d=New(%d)", o.tab, int64(o.hash))
+		case 6:
+			fmt.Fprintf(&desc, " hold:t%d.LookUp(%#x)[ply %d]", o.tab, o.hash, o.ply)
+		case 7:
+			if o.gen&1 == 1 {
+				desc.WriteString(" read-held(last first)")
+			} else {
+				desc.WriteString(" read-held")
+			}
+		}
+	}
+	return in.String(), desc.String()
+}
+
+var c15MultiSizes = []uint64{1, 1, 2, 2, 3, 4, 4, 8, 16}
+
+func genC15Multi(rng *hx.Rng, n int, tier string, emit func(hx.Input)) {
+	for cnt := 0; cnt < n; cnt++ {
+		ntab := []int{2, 2, 2, 3, 3, 3, 4, 1}[rng.Intn(8)]
+		if cnt == 0 {
+			ntab = 3 // the first case of a run has no predecessor in the process: make it the grow script
+		}
+		nb := c15MultiSizes[rng.Intn(len(c15MultiSizes))]
+		// pool: a crowded bucket, the same signature elsewhere, a random key
+		nsig := 3 + rng.Intn(4)
+		b1, b2 := rng.U64()%nb, rng.U64()%nb
+		var pool []uint64
+		sig0 := 1 + rng.U64()%0xffff
+		for i := 0; i < nsig; i++ {
+			s := 1 + rng.U64()%0xffff
+			if i == 0 {
+				s = sig0
+			}
+			if rng.Chance(0.05) {
+				s = 0
+			}
+			pool = append(pool, hashFor(rng, nb, b1, s))
+		}
+		pool = append(pool, hashFor(rng, nb, b1, sig0), hashFor(rng, nb, b2, sig0), rng.U64())
+		gen := []int64{0, 0, 254, 255, int64(rng.Intn(256))}[rng.Intn(5)]
+		sizes := make([]uint64, ntab) // current bucket count per slot, 0 = no table yet
+		var ops []c15mop
+		add := func(tab int, o c15op) { ops = append(ops, c15mop{tab, o}) }
+		newTab := func(tab int, b uint64) {
+			add(tab, c15op{kind: 5, hash: b * 32, ply: int64(rng.Intn(64))})
+			sizes[tab] = b
+		}
+		resize := func(tab int, b uint64) {
+			for _, o := range c15ResizeClear(rng, b) {
+				add(tab, o)
+			}
+			sizes[tab] = b
+		}
+		alive := func() []int {
+			var ts []int
+			for i, s := range sizes {
+				if s > 0 {
+					ts = append(ts, i)
+				}
+			}
+			return ts
+		}
+		var tags []string
+		stores := 0
+		store := func(tab int) {
+			add(tab, c15Store(rng, pool[rng.Intn(len(pool))], gen))
+			stores++
+		}
+		script := rng.Intn(10)
+		if cnt == 0 {
+			script = 0
+		}
+		switch {
+		case script < 3 && ntab >= 3:
+			// one table outgrows its buffer, then two more of the old size are created and used together
+			tags = append(tags, "grow-one-then-two-new-of-the-old-size")
+			newTab(0, nb)
+			for i := rng.Intn(3); i > 0; i-- {
+				store(0)
+			}
+			resize(0, nb*uint64(2+rng.Intn(15)))
+			newTab(1, max(1, nb-uint64(rng.Intn(2))))
+			if rng.Bool() {
+				for i := 1 + rng.Intn(3); i > 0; i-- {
+					store(1)
+				}
+			}
+			newTab(2, nb)
+		case script < 5:
+			tags = append(tags, "all-new-first")
+			for i := 0; i < ntab; i++ {
+				newTab(i, nb)
+			}
+		default:
+			tags = append(tags, "new-at-random-times")
+			newTab(rng.Intn(ntab), nb)
+		}
+		nops := 8 + rng.Intn(50)
+		if rng.Chance(0.04) {
+			nops = 100 + rng.Intn(80)
+		}
+		heldGroups := 0
+		for len(ops) < nops {
+			if rng.Chance(0.1) {
+				gen = (gen + 1) & 255
+			}
+			ts := alive()
+			tab := ts[rng.Intn(len(ts))]
+			r := rng.Intn(100)
+			switch {
+			case r < 45:
+				store(tab)
+			case r < 55:
+				add(tab, c15op{kind: 1, hash: pool[rng.Intn(len(pool))], ply: int64(rng.Intn(64))})
+			case r < 75:
+				// 2..4 LookUp results kept and read afterwards (same table mostly: hits and misses,
+				// same and different buckets), first to last or last to first
+				heldGroups++
+				k := 2 + rng.Intn(3)
+				for i := 0; i < k; i++ {
+					tb := tab
+					if rng.Chance(0.2) {
+						tb = ts[rng.Intn(len(ts))]
+					}
+					h := pool[rng.Intn(len(pool))]
+					if rng.Chance(0.1) {
+						h = rng.U64()
+					}
+					add(tb, c15op{kind: 6, hash: h, ply: int64(rng.Intn(64))})
+				}
+				if rng.Chance(0.8) {
+					add(tab, c15op{kind: 7, gen: int64(rng.Intn(2))})
+				}
+			case r < 79:
+				add(tab, c15op{kind: 2, ply: int64(rng.Intn(64))})
+			case r < 85:
+				resize(tab, c15MultiSizes[rng.Intn(len(c15MultiSizes))]*uint64(1+rng.Intn(3)))
+			case r < 86:
+				add(tab, c15op{kind: 4, hash: c15MultiSizes[rng.Intn(len(c15MultiSizes))] * 32, ply: int64(rng.Intn(64))})
+				add(tab, c15op{kind: 2, ply: int64(rng.Intn(64))})
+			default:
+				// a (new) table in some slot, mostly of the size the case started with
+				b := nb
+				if rng.Chance(0.3) {
+					b = c15MultiSizes[rng.Intn(len(c15MultiSizes))]
+				}
+				newTab(rng.Intn(ntab), b)
+			}
+		}
+		in, desc := c15MultiEncode(ntab, pool, ops)
+		tags = append(tags, fmt.Sprintf("slots=%d", ntab))
+		if heldGroups > 0 {
+			tags = append(tags, "held-results")
+		}
+		if len(alive()) >= 2 {
+			tags = append(tags, "two-or-more-tables-alive")
+		}
+		emit(hx.Input{In: in, Desc: desc, Tags: tags, NonTrivial: stores >= 3 && (len(alive()) >= 2 || heldGroups > 0)})
 	}
 }
